@@ -103,9 +103,10 @@ def accept(ctx, rep, rule):
 
 
 def _delivered(rep, rule, body, prov, key0, pred, what):
+    rl = flow.return_locals(body)
     for b in body.live_blocks():
         for st in b.stmts:
-            if st["k"] == "assign" and st["place"]["l"] == 0 and st["rv"]["k"] == "agg" and st["rv"].get("vname") == "Some":
+            if st["k"] == "assign" and st["place"]["l"] in rl and not st["place"]["p"] and st["rv"]["k"] == "agg" and st["rv"].get("vname") == "Some":
                 t = prov.operand(st["rv"]["ops"][0])
                 rep.check(rule, key0 + "|delivered-pdu", pred(t), "Some(..) carries %s" % what,
                           "the PDU delivered is %s, not %s" % (flow.fmt(t), what), body.loc(st["line"]))
